@@ -20,6 +20,7 @@ macro_rules! dispatch {
             "C01" => $f(&props::c01::C01, $($arg),*),
             "C02" => $f(&props::c02::C02, $($arg),*),
             "C08" => $f(&props::c08::C08, $($arg),*),
+            "C09" => $f(&props::c09::C09, $($arg),*),
             "C12" => $f(&props::c12::C12, $($arg),*),
             _ => { eprintln!("unknown property {}", $id); 2 }
         }
